@@ -379,6 +379,41 @@ class Sym:
 
     ev_Upvar = ev_Var
 
+    def mut_alias(self, stmt, st):
+        """`let a = &mut x.f.g;` with x a local of this frame: `a` is another name of the place `x.f.g` for as long as it lives (the
+        borrow checker keeps `x` untouched meanwhile). Reads of `a` see the place's current value, writes through `a` are writes
+        to the place. Returns the alias value ("alias", root id, root name, path) or None."""
+        pat = stmt["pat"]
+        if pat.get("k") != "Bind" or pat.get("sub") is not None or not (pat.get("ty") or "").startswith("&mut "):
+            return None
+        n, saw_mut = stmt["init"], False
+        while isinstance(n, dict):
+            k = n.get("k")
+            if k == "Borrow":
+                saw_mut = saw_mut or bool(n.get("mut"))
+                n = n["e"]
+            elif k in ("Deref", "Coerce"):
+                n = n["e"]
+            elif k == "Block" and not n["stmts"] and n.get("tail") is not None:
+                n = n["tail"]
+            else:
+                break
+        if not saw_mut:
+            return None
+        pl = self.place_of(n, st)
+        if pl is None or pl[3] is not None or not pl[2] or pl[0] not in st.env:
+            return None
+        cur = st.env[pl[0]]
+        if cur[0] == "alias":
+            return ("alias", cur[1], cur[2], tuple(cur[3]) + tuple(pl[2]))
+        if (n.get("ty") or "").startswith("&") or self.root_is_ref(pl[0], st):
+            return None
+        return ("alias", pl[0], pl[1], tuple(pl[2]))
+
+    def root_is_ref(self, vid, st):
+        v = st.env.get(vid)
+        return v is not None and v[0] in ("place", "pl")
+
     def read_var(self, n, st):
         vid = n["id"]
         if vid not in st.env:
@@ -386,6 +421,11 @@ class Sym:
             base = ("in", n["name"])
         else:
             base = st.env[vid]
+            if base[0] == "alias" and base[1] in st.env and st.env[base[1]][0] != "alias":
+                cur = self.read_var({"id": base[1], "name": base[2]}, st)
+                for fn in base[3]:
+                    cur = mk_field(cur, fn)
+                return cur
         ups = tuple(sorted(((p, v) for (i, p), v in st.store.items() if i == vid and p), key=repr))
         if (vid, ()) in st.store:
             base = st.store[(vid, ())]
@@ -1032,6 +1072,12 @@ class Sym:
                         for s2, okm in self.pmatch(stmt["pat"], ("uninit",), s):
                             nxt.append(s2)
                         continue
+                    al = self.mut_alias(stmt, s)
+                    if al is not None:
+                        s2 = s.copy()
+                        s2.env[stmt["pat"]["id"]] = al
+                        nxt.append(s2)
+                        continue
                     for s2, (k, v) in self.ev(stmt["init"], s):
                         if k != VAL:
                             out.append((s2, (k, v))); continue
@@ -1089,6 +1135,9 @@ class Sym:
             n = F.strip(n["e"])
         if n.get("k") in ("Var", "Upvar"):
             root = None
+            if st is not None and n["id"] in st.env and st.env[n["id"]][0] == "alias":
+                al = st.env[n["id"]]
+                return (al[1], al[2], tuple(al[3]) + tuple(reversed(path)), None)
             if st is not None and n.get("ty", "").startswith("&mut ") and n["id"] in st.env:
                 ev = st.env[n["id"]]
                 if ev[0] in ("call", "mcall", "payload", "field", "place", "pl"):
